@@ -299,6 +299,8 @@ def report(prop_id, tier, seed, results, mod, a, t0, write=True, extra=None):
             print(f'SOLVER-DISAGREEMENT {o["id"]}: z3={o["status"]} cvc5={o["cvc5"]["status"]}')
     elif violations:
         rc = 1
+        for u in undecided:
+            print(f'UNDECIDED (in addition) property={prop_id}: {u}')
         for l in lines:
             print(l)
     elif undecided or unknown:
